@@ -392,6 +392,7 @@ def setup(case, ctx, after_build=None):
     s.band = sum(1 for t in theta if BAND_LO < abs(t) < BAND_HI)
     base_moved = not np.array_equal(model.B, np.eye(4))
     tool_changed = s.state["tool_ops"] > 0
+    tool_differs = not np.array_equal(model.M, model.M0)     # restored / reset by a later move: not a changed tool
     cls = []
     if not case["prep"]:
         cls.append("fresh")
@@ -408,7 +409,7 @@ def setup(case, ctx, after_build=None):
     big = bool(np.any(np.abs(theta) > 1.0))
     if big:
         ctx.label("|theta_i|>1")
-    ctx.nontrivial(base_moved or tool_changed or big)
+    ctx.nontrivial(base_moved or tool_differs or big)
     s.known_region = False
     s.J, s.T = ref_space_jacobian(arm, theta)
     # leave the arm in a state that is NOT theta (reflection inside the admissible box), so that a call with an
